@@ -561,6 +561,15 @@ fn self_check() -> Vec<String> {
     bad
 }
 
+/// Scale cases: spec counts beyond 255 and data regions beyond 65 535 bytes.
+fn scale_cases() -> Vec<Case> {
+    let patterns: [u64; 6] = [0, 0b1110, (1u64 << 34) - 2, ((1u64 << 52) - 2) & !1, 1u64 << 51, (1u64 << 33) | (1u64 << 40) | 0b10];
+    [255usize, 256, 257, 9_000]
+        .iter()
+        .map(|n| Case { fam: "scale".into(), hdr: 0x0102_0304, specs: (0..*n).map(|i| SpecDesc { name: (i % 4) as u8, bits: patterns[i % 6], var: (i % 6) as u8 }).collect() })
+        .collect()
+}
+
 fn explore(ctx: &Ctx) -> Outcome {
     let thorough = ctx.tier == vcore::Tier::Thorough;
     let problems = self_check();
@@ -587,6 +596,16 @@ fn explore(ctx: &Ctx) -> Outcome {
             t
         })
         .reduce(Tally::new, Tally::merge);
+
+    // family 3: scale
+    let mut t3 = Tally::new();
+    for c in scale_cases() {
+        t3.cases += 1;
+        t3.nontrivial += 1;
+        if let Some((sig, summary)) = judge(&c, &mut t3) {
+            t3.violate(format!("scale:{}", sig), format!("[{} specs] {}", c.specs.len(), summary.chars().take(400).collect::<String>()), json!({"scale": c.specs.len()}));
+        }
+    }
 
     // family 2: spec lists
     let mut lists: Vec<Vec<usize>> = Vec::new();
@@ -616,6 +635,7 @@ fn explore(ctx: &Ctx) -> Outcome {
 
     let mut total = t1;
     total.absorb(t2);
+    total.absorb(t3);
     total.sample(serde_json::to_value(Case { fam: "presence-sweep".into(), hdr: 0x0102_0304, specs: embed(SpecDesc { name: 3, bits: 1 << 31 | 1 << 32, var: 1 }, 3) }).unwrap());
     total.sample(serde_json::to_value(Case { fam: "spec-lists".into(), hdr: 1, specs: vec![shape(4), shape(0), shape(0)] }).unwrap());
     total.sample(json!({"note": "field bit numbering", "strings": (1..=LAST_STR).map(|b| format!("{}={}", b, field_name(b))).collect::<Vec<_>>(), "typed": (LAST_STR + 1..=N_BITS).map(|b| format!("{}={}", b, field_name(b))).collect::<Vec<_>>()}));
@@ -655,6 +675,18 @@ fn explore(ctx: &Ctx) -> Outcome {
 }
 
 fn replay(_ctx: &Ctx, case: &Value) -> Vec<Violation> {
+    if let Some(n) = case["scale"].as_u64() {
+        let mut out = Vec::new();
+        for c in scale_cases() {
+            if c.specs.len() as u64 == n {
+                let mut t = Tally::new();
+                if let Some((sig, summary)) = judge(&c, &mut t) {
+                    out.push(Violation { sig: format!("scale:{}", sig), summary: summary.chars().take(400).collect(), case: case.clone() });
+                }
+            }
+        }
+        return out;
+    }
     let c: Case = match serde_json::from_value(case.clone()) {
         Ok(c) => c,
         Err(_) => return vec![],
